@@ -101,6 +101,48 @@ def extent_check(res, lc: LaunchCtx, a, spec):
     )
 
 
+# launches of reset_data that take no mask and are harmless for unselected worlds (argument per kernel)
+UNMASKED_LAUNCH_OK = {
+  "sleep._zero_sleep_counters": "recomputes derived sleep bookkeeping of every world from its own tree_asleep (idempotent for worlds that were not reset)",
+  "sleep._update_sleep_trees": "as above",
+  "sleep._update_sleep_bodies": "as above",
+  "sleep._update_sleep_dofs": "as above",
+}
+
+
+def check_host_writes_masked(db, res) -> int:
+  """R-RESET.5: with a mask given (`reset` symbolic, not None), reset_data may touch per-world Data only through kernels
+  that take the mask. A host-level fill / zero_ / copy of a Data array, or a launch without the mask parameter, acts on
+  every world and must be confined to the `reset is None` path (or tabled as a pure recomputation)."""
+  from .. import hostir
+
+  hi = hostir.HostInterp(db.sm)
+  hi.run("io.reset_data", args={"reset": hostir.Expr("reset")})
+  effs = effects.trace_effects(db, hi)
+  n = 0
+  for e in effs:
+    data_w = sorted(k for k in e.writes if k.startswith("Data."))
+    if not data_w:
+      continue
+    unmasked_path = any(t == "(reset is None)" and pol for t, pol in e.ev.pc)
+    if e.ev.kind in ("fill", "copy"):
+      n += 1
+      res.ob(
+        unmasked_path,
+        f"reset_data|host-{e.ev.kind}|{data_w[0]}",
+        Finding("R-RESET.5", f"io.reset_data|{data_w[0]}|host-write-ignores-mask", f"reset_data {e.ev.kind}s {data_w} on the host also when a reset mask is given: the operation acts on every world, so worlds that were not selected lose this data", e.ev.loc),
+      )
+    elif e.ev.kind == "launch" and e.lc is not None and not any(p.name == "reset_in" for p in e.lc.keval.params):
+      n += 1
+      res.ob(
+        unmasked_path or e.lc.name in UNMASKED_LAUNCH_OK,
+        f"reset_data|unmasked-launch|{e.lc.name}",
+        Finding("R-RESET.5", f"io.reset_data|{e.lc.name}|launch-ignores-mask", f"{e.lc.name} writes {data_w} for every world although a reset mask is given and the kernel does not take it", e.ev.loc),
+        sample={"launch": e.lc.name, "writes": data_w[:3], "tabled": UNMASKED_LAUNCH_OK.get(e.lc.name)},
+      )
+  return n
+
+
 def run(db, res, tier):
   sm = db.sm
   hi = db.trace("io.reset_data")
@@ -108,6 +150,8 @@ def run(db, res, tier):
     res.error(f"unresolved launches in io.reset_data: {hi.unresolved_launches[:3]}")
   effs = effects.trace_effects(db, hi)
   common.check_mask_normalisation(res, db, "io.reset_data", "reset")
+  nh = check_host_writes_masked(db, res)
+  res.floor("ungated host-level operations examined (symbolic mask)", nh, 4)
   written: Dict[str, List] = {}
   for e in effs:
     for k in e.writes:
@@ -155,7 +199,7 @@ def run(db, res, tier):
           res.ob(okv, f"{lc.name}|{a.root}|value", Finding("R-RESET.3", f"{lc.name}|{a.root}|value", f"`{a.root}` is reset to `{show(v)}`; a fresh Data has {'zeros' if exp == 'zero' else 'Model.' + exp}", a.loc))
   res.floor("reset launches", nlaunch, 8)
   res.floor("reset writes", nwrites, 60)
-  res.rule_text = "R-RESET: (1) reset_data writes every State.INTEGRATION field and every Data field that step() reads from before the call; (2) each write covers the declared extent of its dimension (loop/launch bounds and guards compared by dimension name, with model invariants nq >= nv); (3) state fields are reset to the value family of a fresh Data; (4) every access of the masked kernels is dominated by reset_in[world] and none writes a cell without a world dimension"
+  res.rule_text = "R-RESET: (1) reset_data writes every State.INTEGRATION field and every Data field that step() reads from before the call; (2) each write covers the declared extent of its dimension (loop/launch bounds and guards compared by dimension name, with model invariants nq >= nv); (3) state fields are reset to the value family of a fresh Data; (5) with a mask given no host-level fill/copy and no launch without the mask parameter writes per-world Data (tabled: the sleep bookkeeping recomputation); (4) every access of the masked kernels is dominated by reset_in[world] and none writes a cell without a world dimension"
   res.explanation = "Decides coverage, extent, value-family and mask-gating clauses of C13 from the effect trace and kernel IR of reset_data. Not decided: trajectory equality beyond what C12's live-in analysis implies."
   res.extra["analysed"] = {"reset_launches": nlaunch, "reset_writes": nwrites, "required_fields": sorted(required)}
   res.extra["tables_used"] = {"INVARIANTS_GE": [list(x) for x in reset_tables.INVARIANTS_GE], "RESET_VALUES": reset_tables.RESET_VALUES}
